@@ -7,6 +7,8 @@ Case lines
   `<id> g10|g13 <kind> <r> <m> s<seed> <n>`  as `b*` on a generated periodic input: pattern `genPattern kind r m seed`
       (same splitmix64 as the harness) repeated to `n` bytes; claimed period = pattern length
   `<id> d10|d13|f10|f13 <stream-hex>` LZ10/LZ13/CompressionFormat::decompress → `ok <hex> x=ok` | `err Invalid x=ok` | `panic`
+  `<id> h10|h13|hf13 <stream-hex>`    the same entry points (hf13 = CompressionFormat::LZ13), output printed as
+                                      `ok n=<len>,fnv=<FNV-1a 64> x=ok` (streams expanding to 16 MiB and more)
 `period` is a period the generator claims for the input (0 = none); the oracle re-checks it.
 -/
 import Driver.Common
@@ -138,25 +140,36 @@ def modelCompress (is13 : Bool) (x : BA) : String :=
     | .err e => "err " ++ e.name
     | .panic => "panic"
 
-def modelDecode (kind : String) (s : Bytes) : String :=
+/-- FNV-1a (64 bit) of the output, for the cases whose output is too large to print
+(`h10|h13|hf13`: 16 MiB and more). -/
+def fnv (a : BA) : UInt64 :=
+  a.foldl (fun h b => (h ^^^ b.toUInt64) * 0x100000001b3) 0xcbf29ce484222325
+
+/-- How an output is printed: hex, or length and hash for the `h*` ops. -/
+def outRepr (summ : Bool) (out : BA) : String :=
+  if summ then s!"n={out.size},fnv={(fnv out).toNat}" else hexOfBytes out.toList
+
+def modelDecode (kind : String) (summ : Bool) (s : Bytes) : String :=
   let r := match kind with
     | "d10" => decompress10 s
     | "d13" => decompress13 s
     | "f10" => Format.decompress .lz10 s
     | _ => Format.decompress .lz13 s
   match r with
-  | .ok out => "ok " ++ hexOfBytes out.toList ++ " x=ok"
+  | .ok out => "ok " ++ outRepr summ out ++ " x=ok"
   | .err e => "err " ++ e.name ++ " x=ok"
   | .panic => "panic"
 
 /-- What the specification demands of a decoder on the bare stream `s`. -/
-def judgeStream (s : Bytes) (impl : List String) : String :=
+def judgeStream (summ : Bool) (s : Bytes) (impl : List String) : String :=
   match Spec.Lz.parse s with
-  | .ok (ext, _, toks) =>
+  | .ok (ext, n, toks) =>
     if !(Spec.Lz.validB ext toks) then "FAIL oracle bug: parser accepted invalid tokens" else
     match impl with
-    | _ :: "ok" :: outHex :: _ =>
-      if bytesOfHex outHex == some (Spec.Lz.expand toks).toList then s!"ok conforming tokens={toks.length}"
+    | _ :: "ok" :: got :: _ =>
+      -- `expand toks`, started from an empty array that already has the capacity (same value)
+      if got == outRepr summ (Spec.Lz.expandFrom (Array.emptyWithCapacity n) toks) then
+        s!"ok conforming tokens={toks.length}" ++ (if n ≥ 2 ^ 24 then " extended-length" else "")
       else "FAIL well-formed stream decoded to something other than its expansion"
     | _ => "FAIL well-formed stream was not decoded"
   | .error e =>
@@ -169,17 +182,17 @@ def judgeStream (s : Bytes) (impl : List String) : String :=
       | _ :: "err" :: _ => "ok rejected " ++ e.name
       | _ => "FAIL malformed stream (" ++ e.name ++ ") must be an error"
 
-def oracleDecode (kind : String) (s : Bytes) (impl : List String) : String :=
+def oracleDecode (kind : String) (summ : Bool) (s : Bytes) (impl : List String) : String :=
   if impl.getD 1 "" == "panic" then "FAIL panic" else
   if kind == "d13" || kind == "f13" then
     if s.length < 4 then
       (if impl.getD 1 "" == "err" then "ok rejected short" else "FAIL input shorter than a header must be an error")
     else if s.head? == some 0 then
-      (if impl.getD 1 "" == "ok" && bytesOfHex (impl.getD 2 "") == some (s.drop 4) then "ok stored"
+      (if impl.getD 1 "" == "ok" && impl.getD 2 "" == outRepr summ (s.drop 4).toArray then "ok stored"
        else "FAIL stored form must return the bytes after the 4-byte header")
-    else if s.head? == some 0x13 then judgeStream (s.drop 4) impl
-    else judgeStream s impl
-  else judgeStream s impl
+    else if s.head? == some 0x13 then judgeStream summ (s.drop 4) impl
+    else judgeStream summ s impl
+  else judgeStream summ s impl
 
 def family : Family where
   State := Unit
@@ -209,7 +222,12 @@ def family : Family where
     | [_, kind, s] =>
       if kind == "d10" || kind == "d13" || kind == "f10" || kind == "f13" then
         let s := hexOrBad s
-        ((), modelDecode kind s, oracleDecode kind s i)
+        ((), modelDecode kind false s, oracleDecode kind false s i)
+      else if kind == "h10" || kind == "h13" || kind == "hf13" then
+        -- same entry points, output printed as length + hash (expansions of 16 MiB and more)
+        let base := if kind == "h10" then "d10" else if kind == "h13" then "d13" else "f13"
+        let s := hexOrBad s
+        ((), modelDecode base true s, oracleDecode base true s i)
       else ((), "bad-case", "FAIL bad-case")
     | _ => ((), "bad-case", "FAIL bad-case")
 
